@@ -776,6 +776,6 @@ func TestC19(t *testing.T) {
 		Oracle:   oracle,
 		Fixed:    fixed,
 		Quick:    20000,
-		Thorough: 300000,
+		Thorough: 600000,
 	})
 }
